@@ -181,7 +181,37 @@ def trimEnd (l : List Char) : List Char := (l.reverse.dropWhile isWhitespace).re
 /-- `clean_line`, without the final newline (lines are kept newline-free in the model). -/
 def cleanLine (l : List Char) : List Char := trimEnd l
 
-/-! ### Replay of a log forest (`redo-log -r [-u] --no-pretty`, no `--follow`, flat directory) -/
+/-! ### Replay of a log forest (`redo-log -r [-u] --no-pretty`, no `--follow`), with directories
+
+Names in a log are relative to the directory of the log's target (`mydir = t.parent()` in `catlog`). -/
+
+/-- The part of `t` before its last `/` (`[]` if there is none). -/
+def beforeLast : List Char → List Char
+  | [] => []
+  | c :: cs => if cs.contains '/' then c :: beforeLast cs else []
+
+/-- On the reversed directory part: drop trailing `/` and `/.` (what `Components::as_path` trims at the back). -/
+def stripTailR : List Char → List Char
+  | '/' :: r => stripTailR r
+  | '.' :: '/' :: r => stripTailR r
+  | r => r
+
+/-- `t.parent().unwrap_or_default()`: the part before the last `/` without trailing `/` and `/.` (`std::path` works on
+components: `a/./b` and `a//b` have the parent `a`; a leading `.` is kept), `/` itself for a name directly under the
+root.  Whatever `std` does more than this (trailing `/` on `t` itself) is erased by `normpath`; the name is only ever
+used under `normpath` or as a ghost tag — and as the text of a `resumed` record, where the differential test compares
+it literally. -/
+def dirOf (t : List Char) : List Char :=
+  let d := (stripTailR (beforeLast t).reverse).reverse
+  if d.isEmpty && rooted t then ['/'] else d
+
+/-- `mydir.join(x)` (`PathBuf::push`): an absolute `x` replaces `mydir`; the empty `mydir` adds nothing.
+(`join("/", x)` is `/x`, here `//x`: erased by `normpath`.) -/
+def joinP (d x : List Char) : List Char :=
+  if rooted x || d.isEmpty then x else d ++ '/' :: x
+
+/-- The name a record text `x` in the log of `t` stands for: `mydir.join(x)`. -/
+def resolve (t x : List Char) : List Char := joinP (dirOf t) x
 
 inductive Out
   | record (kind text : List Char)
@@ -223,12 +253,18 @@ def lines (recurse : List Char → St → Except CErr (St × Nat)) (optU optR : 
       let st := if intr ≠ 0 then emit st t (.record kResumed t) else st
       lines recurse optU optR t ls (emit st t (.raw (cleanLine l))) 0 (w + 1)
     | .ok g =>
-      let fixname := normpath g.text
+      -- `new_t = mydir.join(g.text)`; `fixname = normpath(new_t)`.  What is printed is `relname = rel(topdir, mydir,
+      -- g.text)`, the lexical path of `topdir/mydir/g.text` relative to the current directory `topdir`: for a relative
+      -- name inside or above the project that is `normpath (mydir.join g.text)` again (`relpath` cleans the absolute
+      -- path and strips the common prefix `topdir`, climbing with `..` for what is left), so one name serves for both.
+      -- (Absolute record texts and the project directory itself, printed as the empty string, are out of scope.)
+      let full := resolve t g.text
+      let fixname := normpath full
       if g.kind = kUnchanged then
         if optU then
-          let st := if fixname ∈ st.already then st else emit st t (.record kDo g.text)
+          let st := if fixname ∈ st.already then st else emit st t (.record kDo fixname)
           if optR then
-            match recurse g.text st with
+            match recurse full st with
             | .error e => .error e
             | .ok (st, got) =>
               lines recurse optU optR t ls { st with already := fixname :: st.already } (intr + got) (w + got)
@@ -237,10 +273,10 @@ def lines (recurse : List Char → St → Except CErr (St × Nat)) (optU optR : 
       else if g.kind = kDo ∨ g.kind = kWaiting ∨ g.kind = kLocked ∨ g.kind = kUnlocked then
         let (st, intr, w) :=
           if fixname ∈ st.already then (st, intr, w)
-          else (emit st t (.record kDo g.text), intr + 1, w + 1)
+          else (emit st t (.record kDo fixname), intr + 1, w + 1)
         if optR then
           if g.text.isEmpty then .error .emptyText
-          else match recurse g.text st with
+          else match recurse full st with
             | .error e => .error e
             | .ok (st, got) =>
               lines recurse optU optR t ls { st with already := fixname :: st.already } (intr + got) (w + got)
@@ -249,7 +285,7 @@ def lines (recurse : List Char → St → Except CErr (St × Nat)) (optU optR : 
         match parseDoneText g.text with
         | none => .error .badDone
         | some (rv, name) =>
-          lines recurse optU optR t ls (emit st t (.record kDone (rv ++ ' ' :: name))) intr (w + 1)
+          lines recurse optU optR t ls (emit st t (.record kDone (rv ++ ' ' :: normpath (resolve t name)))) intr (w + 1)
       else
         lines recurse optU optR t ls (emit st t (.raw (cleanLine l))) intr (w + 1)
 
@@ -262,16 +298,18 @@ def catlog (F : Forest) (optU optR : Bool) : Nat → List Char → St → Except
     if normpath t ∈ st.already then .ok (st, 0)
     else
       let st := { st with already := normpath t :: st.already }
-      match lookup F t with
+      -- `File::from_name(t)`: the database row of the cleaned project-relative name; forests are keyed by those
+      match lookup F (normpath t) with
       | none => .error .unknownTarget
       | some none => .ok (st, 0)
       | some (some ls) => lines (catlog F optU optR fuel) optU optR t ls st 0 0
 
-/-- The top-level loop of `redo-log` over its command-line targets. -/
+/-- The top-level loop of `redo-log` over its command-line targets: each is announced as `rel(topdir, ".", t)`
+(its cleaned name) and passed to `catlog` as written (not joined with anything). -/
 def redoLog (F : Forest) (optU optR : Bool) (fuel : Nat) : List (List Char) → St → Except CErr St
   | [], st => .ok st
   | t :: ts, st =>
-    match catlog F optU optR fuel t (emit st [] (.record kDo t)) with
+    match catlog F optU optR fuel t (emit st [] (.record kDo (normpath t))) with
     | .error e => .error e
     | .ok (st, _) => redoLog F optU optR fuel ts st
 
